@@ -57,18 +57,7 @@ func runSyncer(s *core.Sim, tier string, liveness bool) RunInfo {
 	// the Store under the Syncer: flavour, small caches, and (sometimes) every datastore
 	// operation a park point with occasional latency, so that the store's own goroutine
 	// interleaves with the sync loop and the gossip handler as well
-	w.Flav = core.Pick(s.Tape, "flavour", []string{"plain", "ctx"})
-	if s.Tape.Coin("park-disk", 1, 3) {
-		w.Disk.Park = true
-		drng := s.Sub("disk-latency")
-		w.Disk.Latency = func(op string) time.Duration {
-			if drng.Coin("stall", 1, 10) {
-				s.Fault("disk-latency-stall")
-				return time.Duration(1+drng.Draw("stall-ms", 2000)) * time.Millisecond
-			}
-			return 0
-		}
-	}
+	w.configureDisk()
 	p := store.Parameters{WriteBatchSize: core.Pick(s.Tape, "batch", sizeKnob), StoreCacheSize: core.Pick(s.Tape, "cache", cacheKnob), IndexCacheSize: core.Pick(s.Tape, "icache", cacheKnob)}
 	if err := w.OpenStore(p); err != nil {
 		s.Aborted = "store start: " + err.Error()
